@@ -26,6 +26,10 @@ type vlTr struct {
 	after  atomic.Int64
 	dials  atomic.Int64
 	closed atomic.Bool
+	// when set, Shutdown reports that it was entered and stays inside until released: a real transport
+	// takes a while to tear down (it waits for its listener goroutines)
+	entered chan struct{}
+	gate    chan struct{}
 }
 
 func (t *vlTr) WriteTo(b []byte, a string) (time.Time, error) {
@@ -44,7 +48,31 @@ func (t *vlTr) DialAddressTimeout(a Address, d time.Duration) (net.Conn, error) 
 func (t *vlTr) DialTimeout(a string, d time.Duration) (net.Conn, error) {
 	return t.DialAddressTimeout(Address{Addr: a}, d)
 }
-func (t *vlTr) Shutdown() error { t.closed.Store(true); return nil }
+func (t *vlTr) Shutdown() error {
+	if t.gate != nil {
+		select {
+		case t.entered <- struct{}{}:
+		default:
+		}
+		<-t.gate
+	}
+	t.closed.Store(true)
+	return nil
+}
+
+type vlDrain struct{ m **Memberlist }
+
+func (d vlDrain) NotifyJoin(*Node)   {}
+func (d vlDrain) NotifyUpdate(*Node) {}
+func (d vlDrain) NotifyLeave(n *Node) {
+	// the departure was queued just before this callback: hand it out until the queue reports it
+	// finished, as a fast gossip round would between deadNode() and Leave()'s wait
+	if m := *d.m; m != nil && n.Name == "self" {
+		for i := 0; i < 64 && m.broadcasts.NumQueued() > 0; i++ {
+			m.broadcasts.GetBroadcasts(0, 1400)
+		}
+	}
+}
 
 var vlNames = []string{"Members", "NumMembers", "LocalNode", "UpdateNode", "Leave", "Shutdown", "Health", "SendBestEffort", "SendReliable", "Ping", "Join", "Advance", "Reap"}
 
@@ -90,15 +118,77 @@ func vlRun(t *testing.T, c *vfCase, st *vfStats) {
 	conf.ProbeInterval = 200 * time.Millisecond
 	conf.ProbeTimeout = 50 * time.Millisecond
 	conf.Delegate = &vwUser{}
+	var mp *Memberlist
+	if len(c.Ops) > 0 && c.Ops[0][0] == 20 {
+		tr.entered, tr.gate = make(chan struct{}, 1), make(chan struct{})
+	}
+	if len(c.Ops) > 0 && c.Ops[0][0] == 21 {
+		conf.Events = vlDrain{&mp}
+		conf.GossipInterval = time.Hour
+	}
 	m, err := Create(conf)
 	if err != nil {
 		t.Fatal(err)
 	}
+	mp = m
 	if c.Cfg[0] != 0 {
 		m.aliveNode(&alive{Incarnation: 1, Node: "p1", Addr: []byte{10, 0, 0, 1}, Port: 7946, Vsn: []uint8{1, 5, 2, 0, 0, 0}}, nil, false)
 	}
 	c.Obs = nil
 	shut := false
+	if len(c.Ops) > 0 && c.Ops[0][0] == 20 {
+		// two Shutdown calls overlapping: the second arrives while the first is inside the transport
+		// teardown.  Runs in real time (a goroutine waiting for a mutex is not durably blocked, so a
+		// synctest bubble cannot host this).
+		var pan atomic.Bool
+		var wg sync.WaitGroup
+		call := func() {
+			defer wg.Done()
+			defer func() {
+				if recover() != nil {
+					pan.Store(true)
+				}
+			}()
+			_ = m.Shutdown()
+		}
+		wg.Add(2)
+		go call()
+		<-tr.entered
+		go call()
+		time.Sleep(20 * time.Millisecond)
+		close(tr.gate)
+		wg.Wait()
+		c.Obs = append(c.Obs, []int64{vwBool(pan.Load()), 0, 0}, []int64{0, 0, 0})
+		st.Ops++
+		st.OpHist["concurrent_shutdown"]++
+		return
+	}
+	if len(c.Ops) > 0 && c.Ops[0][0] == 21 {
+		// Leave with no timeout while the departure is transmitted completely before Leave starts waiting
+		done := make(chan struct{})
+		go func() { _ = m.Leave(0); close(done) }()
+		time.Sleep(30 * time.Second)
+		synctest.Wait()
+		stuck := true
+		select {
+		case <-done:
+			stuck = false
+		default:
+		}
+		c.Obs = append(c.Obs, []int64{0, vwBool(stuck), 0}, []int64{0, 0, 0})
+		st.Ops++
+		st.OpHist["leave_signal"]++
+		if stuck {
+			// release the goroutine so that the bubble can end
+			select {
+			case m.leaveBroadcast <- struct{}{}:
+			default:
+			}
+		}
+		m.Shutdown()
+		time.Sleep(time.Minute)
+		return
+	}
 	for _, op := range c.Ops {
 		if op[0] == 5 {
 			shut = true
@@ -223,9 +313,16 @@ func TestVfLife(t *testing.T) {
 		for i := 0; i < n; i++ {
 			cases = append(cases, vlGen(r))
 		}
+		for i := 0; i < 5; i++ {
+			cases = append(cases, vfCase{Cfg: []int64{1}, Ops: [][]int64{{20}}}, vfCase{Cfg: []int64{1}, Ops: [][]int64{{21}}})
+		}
 		vlRealSockets(st)
 	}
 	for i := range cases {
+		if len(cases[i].Ops) > 0 && cases[i].Ops[0][0] == 20 {
+			vlRun(t, &cases[i], st)
+			continue
+		}
 		synctest.Test(t, func(t *testing.T) { vlRun(t, &cases[i], st) })
 	}
 	if err := vfEmit(st, cases, "From VF Require Import Raw LifeCheck.", "LifeCheck.check_case", true); err != nil {
